@@ -133,7 +133,7 @@ def obligations(r, tier, seed):
         r_ = k.r
         a, b, z = k.pose("R2", "a"), k.pose("R2", "b"), k.pose("R2", "z")
         vs = [r_.Vertex(0, a, fixed=True), r_.Vertex(1, b)]
-        e = r_.EdgeOdometry([0, 1], k.sym_matrix("O", 2), z)
+        e = r_.EdgeOdometry([0, 1], k.spd_matrix("O", 2), z)
         g = r_.Graph([e], vs)
         k.eq(e.calc_error(), [0, 0], "the initial guess already solves the problem")
     obs.append(Ob("C04/canary/initial-guess-is-optimal", canary, tier="canary"))
@@ -142,7 +142,7 @@ def obligations(r, tier, seed):
         r_ = k.r
         a, b, z = k.pose("R2", "a"), k.pose("R2", "b"), k.pose("R2", "z")
         vs = [r_.Vertex(0, a, fixed=True), r_.Vertex(1, b)]
-        e = r_.EdgeOdometry([0, 1], k.sym_matrix("O", 2), z)
+        e = r_.EdgeOdometry([0, 1], k.spd_matrix("O", 2), z)
         g = r_.Graph([e], vs)
         ghost = common.Ghost()
         with common.counting_spsolve(k, ghost):
